@@ -334,12 +334,18 @@ def main(ctx):
         descr, nrows, writer, reader = case
         roundtrip(case, rec, [tuple(d) for d in descr], nrows, {"n": nrows}, [writer], [reader], True)
 
-    from mc.longarr import marks as _marks
+    from mc.longarr import marks as _marks, harvest_lengths
+    import esutil.recfile.Util as _ru
+    import esutil.sfile as _sm
+    # row counts derived from the integer constants of the code under test (as rows, and as bytes of 8-byte rows)
+    _hl, _hb = harvest_lengths([_sm, _ru], ["recfile"])
+    HARV = tuple(sorted({n for n in _hl if n >= 1000} | {n // 8 for n in _hl if n >= 8000 and n % 8 == 0}))
+    ctx.notes.append("large-tables: integer constants harvested from sfile.py, recfile/Util.py, recfile/*.cpp: %r" % (_hb,))
     LARGE = []
     for descr, rows in (
             ([("a", "<i8"), ("x", "<f8")], (4095, 4096, 4097, 65535, 65536, 65537, 131072,          # 16-byte rows
                                             99999, 100000, 100001, 999999, 1000000, 1000001, 2000000)),   # ... and decimal marks
-            ([("a", "<i2"), ("x", "<f4"), ("s", "S2")], tuple(m + d for m in _marks(ctx) for d in (-1, 0, 1))),   # 8-byte rows, universal marks (mc/longarr.py)
+            ([("a", "<i2"), ("x", "<f4"), ("s", "S2")], tuple(m + d for m in _marks(ctx) for d in (-1, 0, 1)) + HARV),   # 8-byte rows, universal marks (mc/longarr.py)
             ([("a", "<i4"), ("x", ">f8")], (5461, 5462, 87381, 87382)),                             # 12-byte rows
             ([("s", "S1024")], (63, 64, 65, 1023, 1024, 1025, 2048)),                               # 1 KiB rows
             ([("s", "S1100000"), ("k", "<i2")], (1, 2))):                                           # a row wider than 1 MiB
